@@ -170,6 +170,46 @@ fn judge_curve2(case: &Case, l: &mut Local) {
             }
         }
     }
+    // construction from surface points: the vertex order follows the majority of the given normals, in any frame
+    {
+        let v = c.points().to_vec();
+        let n = v.len();
+        let closed = c.is_closed();
+        let ne = n - 1;
+        let edge_n: Vec<Vector2> = (0..ne).map(|i| { let d = (v[i + 1] - v[i]).normalize(); Vector2::new(d.y, -d.x) }).collect();
+        // bisector normals at the vertices (right-hand normals of the adjacent edges)
+        let mut normals: Vec<Option<Vector2>> = Vec::new();
+        for i in 0..n {
+            let (a, b) = if i == 0 { (if closed { edge_n[ne - 1] } else { edge_n[0] }, edge_n[0]) } else if i == n - 1 { (edge_n[ne - 1], if closed { edge_n[0] } else { edge_n[ne - 1] }) } else { (edge_n[i - 1], edge_n[i]) };
+            let m = a + b;
+            normals.push(if m.norm() > 0.5 { Some(m.normalize()) } else { None });
+        }
+        if normals.iter().all(|x| x.is_some()) && n >= 3 {
+            // the library's own convention for the side of the normal, read off the first edge
+            let lib_sign = c.at_length(0.5 * c.lengths()[1]).map(|st| st.normal().dot(&edge_n[0])).unwrap_or(0.0).signum();
+            for (flip, minority) in [(1.0, false), (-1.0, false), (1.0, true), (-1.0, true)] {
+                l.eval();
+                let sps: Vec<SurfacePoint2> = (0..n).map(|i| { let s = if minority && i == 1 { -flip } else { flip }; SurfacePoint2::new_normalize(v[i], normals[i].unwrap() * s * lib_sign) }).collect();
+                let moved: Vec<SurfacePoint2> = sps.iter().map(|sp| SurfacePoint2::new_normalize(iso * sp.point, iso * sp.normal.into_inner())).collect();
+                if minority && n < 4 {
+                    continue;
+                }
+                match (guarded(|| Curve2::from_surf_points(&sps, 1e-9, false)), guarded(|| Curve2::from_surf_points(&moved, 1e-9, false))) {
+                    (Ok(Ok(a)), Ok(Ok(b))) => {
+                        l.bucket("curve from surface points x iso");
+                        let want: Vec<Point2> = if flip > 0.0 { v.clone() } else { v.iter().rev().cloned().collect() };
+                        let as_given = a.count() == want.len() && a.points().iter().zip(want.iter()).all(|(p, q)| d2(p, q) <= 1e-12);
+                        l.check("curve2: a curve from surface points runs so that its normals agree with the majority of the given normals", "", as_given, mk, || format!("flip {} minority {}: {:?} expected {:?}", flip, minority, a.points(), want));
+                        let same = a.count() == b.count() && a.points().iter().zip(b.points().iter()).all(|(p, q)| d2(&(iso * p), q) <= tol);
+                        l.check("curve2: construction from surface points commutes with the motion", "", same, mk, || format!("flip {} minority {}", flip, minority));
+                    }
+                    (a, b) => {
+                        l.check("curve2: construction from surface points commutes with the motion", "presence", false, mk, || format!("{:?} {:?}", a.map(|x| x.map(|c| c.count()).map_err(|e| e.to_string())), b.map(|x| x.map(|c| c.count()).map_err(|e| e.to_string()))));
+                    }
+                }
+            }
+        }
+    }
     // inverse restores, composition equals sequence
     let back = ct.transformed_by(&iso.inverse());
     l.check("curve2: inverse motion restores the curve", "", back.points().iter().zip(c.points().iter()).all(|(p, q)| d2(p, q) <= tol), mk, String::new);
